@@ -213,24 +213,35 @@ def coq_string(s):
 
 
 def in_coq_sample(prop, cfg, work, pairs, k=24):
-    """Evaluate run_case on up to k (model input, implementation observation) pairs inside Coq."""
+    """Evaluate run_case on up to k (model input, implementation observation) pairs inside Coq.  Running out of stack or
+    memory while Coq reads or evaluates a large literal is not a disagreement: the sample is halved (smallest cases
+    first) and, if it still cannot be evaluated, reported as not evaluated."""
     step = max(1, len(pairs) // k)
     sample = pairs[::step][:k]
     mod = cfg.get('run_module', 'Run' + prop)
     vf = os.path.join(work, 'InCoq%s.v' % prop)
-    with open(vf, 'w') as f:
-        f.write('From Coq Require Import List. Import ListNotations.\n')
-        f.write('From UF Require Import Base.Lit Base.Bytes Run.%s.\n' % mod)
-        f.write('Definition cases : list (bytes * bytes) := [\n')
-        f.write(';\n'.join('  ($%s, $%s)' % (coq_string(a), coq_string(b)) for a, b in sample))
-        f.write('\n].\n')
-        f.write('Definition mismatches := Eval vm_compute in\n'
-                '  length (filter (fun c => negb (bytes_eqb (run_case (fst c)) (snd c))) cases).\n')
-        f.write('Print mismatches.\n')
-    with Lock('coq.lock'):
-        rc, out = sh(['coqc', '-Q', os.path.join(COQ, 'theories'), 'UF', '-w', '-notation-overridden', vf], cwd=work, timeout=1800)
-    m = re.search(r'mismatches\s*=\s*(\d+)', out)
-    res = {'n': len(sample), 'ok': rc == 0 and m is not None, 'mismatches': int(m.group(1)) if m else None, 'log': out[-2000:]}
+    res = {'n': 0, 'ok': True, 'mismatches': 0, 'log': '', 'not_evaluated': ''}
+    while sample:
+        with open(vf, 'w') as f:
+            f.write('From Coq Require Import List. Import ListNotations.\n')
+            f.write('From UF Require Import Base.Lit Base.Bytes Run.%s.\n' % mod)
+            for i, (a, b) in enumerate(sample):
+                f.write('Definition c%d : bytes * bytes := ($%s, $%s).\n' % (i, coq_string(a), coq_string(b)))
+            f.write('Definition cases : list (bytes * bytes) := [%s].\n' % '; '.join('c%d' % i for i in range(len(sample))))
+            f.write('Definition mismatches := Eval vm_compute in\n'
+                    '  length (filter (fun c => negb (bytes_eqb (run_case (fst c)) (snd c))) cases).\n')
+            f.write('Print mismatches.\n')
+        with Lock('coq.lock'):
+            rc, out = sh(['bash', '-c', 'ulimit -s unlimited 2>/dev/null; exec coqc -Q "$0" UF -w -notation-overridden "$1"',
+                          os.path.join(COQ, 'theories'), vf], cwd=work, timeout=1800)
+        m = re.search(r'mismatches\s*=\s*(\d+)', out)
+        if rc != 0 and re.search(r'Stack overflow|Out of memory|Stack_overflow|Out_of_memory', out):
+            sample = sorted(sample, key=lambda ab: len(ab[0]))[:len(sample) // 2]
+            res['not_evaluated'] = 'Coq ran out of stack or memory on the larger cases of the sample; evaluated the smaller ones'
+            continue
+        res.update({'n': len(sample), 'ok': rc == 0 and m is not None, 'mismatches': int(m.group(1)) if m else None, 'log': out[-2000:]})
+        return res
+    res['not_evaluated'] = 'Coq ran out of stack or memory even on a single case of the sample'
     return res
 
 
